@@ -607,7 +607,15 @@ func flagMeansDiffers(v ssa.Value) bool {
 				continue
 			}
 			c, ok := ret.Results[idx].(*ssa.Const)
-			if !ok || c.Value == nil || c.Value.Kind() != constant.Bool {
+			if !ok {
+				// the comparison itself is returned (`swapped := idx != last; …; return …, swapped`)
+				if at, neg := condAtom(ret.Results[idx]); at != nil && differsEdge(at, !neg) {
+					sawTrue = true
+					continue
+				}
+				return false
+			}
+			if c.Value == nil || c.Value.Kind() != constant.Bool {
 				return false
 			}
 			if constant.BoolVal(c.Value) {
